@@ -209,6 +209,17 @@ class Interp:
     def set_ctx(self, ctx):
         self.ctx = ctx
         self.ops.ctx = ctx
+        # every run starts from freshly imported modules: module-level
+        # containers that the previous run modified are re-evaluated
+        mutated = set(id(o) for o in self.mutlog)
+        if mutated:
+            for m in self.modules.values():
+                cache = getattr(m, 'cache', None)
+                if not cache:
+                    continue
+                for nm in [n for n, v in cache.items()
+                           if id(v) in mutated and isinstance(v, (dict, list, set))]:
+                    del cache[nm]
         self.mutlog = []
         self.ext_calls = []
         # default values are evaluated once per function definition and
